@@ -485,6 +485,7 @@ def signature(case, real):
 # ----------------------------------------------------------------------------------------------
 class C18(PropertyCheck):
     pid = "C18"
+    claimed = True
     props_modules = ["KDVerif.Props.C18"]
     extra_build = ["KDVerif.Driver.Collate"]
     driver_main = "mains/Collate.lean"
